@@ -204,7 +204,9 @@ func patternClass(p string) string {
 	return strings.Join(cl, ",")
 }
 
-var patterns = []string{"*", "?", "a*", "*a", "[ab]", "[^a]", "[a-c]", "[c-a]", `\*`, `\a`, "[", "[]", "a[", "[a", "[]a]", "a", "b", "*/*", "*/a", "a/*", "?/?", "*/*/*", "[ab]/[ab]", "/*", "**", "*?", "[-]", "[a-]", "[^]", `[\]]`}
+var patterns = []string{"*", "?", "a*", "*a", "[ab]", "[^a]", "[a-c]", "[c-a]", `\*`, `\a`, "[", "[]", "a[", "[a", "[]a]", "a", "b", "*/*", "*/a", "a/*", "?/?", "*/*/*", "[ab]/[ab]", "/*", "**", "*?", "[-]", "[a-]", "[^]", `[\]]`,
+	// a closing bracket outside a class and an opening one inside a class are ordinary characters
+	"a]*", "*]*", "[[]*", "*]d/*", "?]", "[[]b", "*[]]*", "c]d/[a-e]"}
 
 // lexically clean dot patterns, only used bare (relative to the working directory)
 var dotPatterns = []string{".", "..", "../*", "../a"}
@@ -240,6 +242,8 @@ func TestCheck(t *testing.T) {
 	idx := 0
 	for _, kind := range fsKinds {
 		trees := cfgm.StartTrees()
+		trees["brackets"] = []fsx.Op{{K: "WriteFile", P: "/w/a]", Data: "1", Perm: 0o644}, {K: "WriteFile", P: "/w/[b", Data: "2", Perm: 0o644}, {K: "Mkdir", P: "/w/c]d", Perm: 0o755},
+			{K: "WriteFile", P: "/w/c]d/e", Data: "3", Perm: 0o644}, {K: "Mkdir", P: "/w/a", Perm: 0o755}, {K: "WriteFile", P: "/w/a/x]y", Data: "4", Perm: 0o644}, {K: "WriteFile", P: "/w/a/[", Data: "5", Perm: 0o644}}
 		for name, build := range trees {
 			for _, cwd := range []string{"", "/w", "/w/a"} {
 				idx++
